@@ -1,20 +1,27 @@
 //! Checks of the agdb library (C01-C23, C32). `core_checks <Cxx> [--tier ..] [--replay file]`
 mod c01;
+mod c0203;
 mod c04;
 mod c0506;
 mod c13;
+mod c32;
 mod dbops;
 mod storops;
+
+#[global_allocator]
+static ALLOC: engine::GuardAlloc = engine::GuardAlloc;
 
 fn main() {
     let args = engine::parse_args();
     engine::install_quiet_panic_hook();
     let code = match args.property.as_str() {
         "C01" => c01::run(&args),
+        "C02" | "C03" => c0203::run(&args),
         "C04" => c04::run(&args),
         "C05" => c0506::run_c05(&args),
         "C06" => c0506::run_c06(&args),
         "C13" => c13::run(&args),
+        "C32" => c32::run(&args),
         other => engine::machinery_failure(&format!("core_checks: unknown property {other}")),
     };
     std::process::exit(code);
